@@ -73,7 +73,7 @@ Definition head_ok (msg : str) (t : tree) : Prop :=
 Definition auth_record (data : str) : Prop :=
   exists id text rest tmsg t,
     parse_record data = Index.Ok (id, text, rest) /\ signed_tree tmsg t /\
-    (id < Codec.tN t /\ 0 < Codec.tN t) /\
+    0 <= id < Codec.tN t /\
     node_auth NodeAt (Codec.tH t) (Codec.tN t) (stored_hash_index 0 id) (leaf_hash text).
 
 Definition is_lookup_file (f : str) : Prop :=
@@ -615,46 +615,35 @@ Lemma check_record_st_spec id text s r s' :
   check_record_st leaf_hash node_hash id text s = (r, s') ->
   tframe s s' /\ textend ev_quiet s s' /\
   (r = None -> exists tmsg, signed_tree tmsg (c_latest (s_c s)) /\
-               (id < Codec.tN (c_latest (s_c s)) /\ 0 < Codec.tN (c_latest (s_c s))) /\
+               0 <= id < Codec.tN (c_latest (s_c s)) /\
                node_auth NodeAt (Codec.tH (c_latest (s_c s))) (Codec.tN (c_latest (s_c s)))
                          (stored_hash_index 0 id) (leaf_hash text)) /\
   (forall e, r = Some e -> e <> ESecurity /\ e <> EFuelC).
 Proof.
   intros HI H. unfold check_record_st in H.
   minv H. unfold get_client in E. inversion E; subst a s0; clear E.
-  destruct (Codec.tN (c_latest (s_c s)) <=? id) eqn:Hle.
+  destruct ((id <? 0) || (Codec.tN (c_latest (s_c s)) <=? id)) eqn:Hle.
   { apply ret_inv in H as [-> ->]. split; [apply tframe_refl|]. split; [apply textend_refl|].
     split; [discriminate|]. intros e [= <-]. split; discriminate. }
-  apply Z.leb_gt in Hle. minv H.
-  destruct (ci_head _ HI) as [[_ H0]|Hs].
-  - (* the empty, unsigned timeline: nothing is read *)
-    apply tile_read_hashes_st_empty in E as [-> Hno]; [|exact H0|apply stored_hash_index_0_nonneg].
-    assert (s' = s /\ exists e, r = Some e /\ e <> ESecurity /\ e <> EFuelC) as [-> (e & -> & He)].
-    { destruct a as [[|h l]|k|]; try (exfalso; eapply Hno; reflexivity);
-        apply ret_inv in H as [-> ->]; (split; [reflexivity|]); eexists; (split; [reflexivity|]); split; discriminate. }
-    split; [apply tframe_refl|]. split; [apply textend_refl|]. split; [discriminate|].
-    intros e' [= <-]. exact He.
-  - assert (Hr := signed_range _ _ Hs).
-    assert (Hpos : (exists hs, a = TOk hs) -> 0 < Codec.tN (c_latest (s_c s))).
-    { intros (hs & ->). destruct (Z.eq_dec (Codec.tN (c_latest (s_c s))) 0) as [E0|]; [|lia].
-      exfalso. eapply tile_read_hashes_st_empty in E as [_ Hno]; [|exact E0|apply stored_hash_index_0_nonneg].
-      eapply Hno. reflexivity. }
-    eapply tile_read_hashes_st_spec in E as (F & T & Hauth); eauto; [|apply (ci_height _ HI)].
-    assert (Tq : textend ev_quiet s s0).
-    { eapply textend_impl; [|exact T]. rewrite (ci_name _ HI). intros e. eapply tile_ev_quiet; eauto. }
-    assert (Hfin : s' = s0 /\
-                   (r = None -> exists h l, a = TOk (h :: l) /\ str_eqb h (leaf_hash text) = true) /\
-                   (forall e, r = Some e -> e <> ESecurity /\ e <> EFuelC)).
-    { destruct a as [[|h l]|k|]; try (apply ret_inv in H as [-> ->]; split; [reflexivity|];
-                                       split; [discriminate|]; intros e [= <-]; split; discriminate).
-      destruct (str_eqb h (leaf_hash text)) eqn:Heq; apply ret_inv in H as [-> ->].
-      - split; [reflexivity|]. split; [intros _; exists h, l; auto | intros e [=]].
-      - split; [reflexivity|]. split; [discriminate | intros e [= <-]; split; discriminate]. }
-    destruct Hfin as (-> & Hnone & Herrs).
-    split; [exact F|]. split; [exact Tq|]. split; [|exact Herrs].
-    intros Hr0. destruct (Hnone Hr0) as (h & l & -> & Heq). apply str_eqb_eq in Heq. subst h.
-    exists (c_latest_msg (s_c s)). split; [exact Hs|]. split; [split; [exact Hle | apply Hpos; eauto]|].
-    specialize (Hauth _ eq_refl). inversion Hauth; subst. assumption.
+  apply orb_false_iff in Hle as [Hneg Hle]. apply Z.ltb_ge in Hneg. apply Z.leb_gt in Hle. minv H.
+  destruct (ci_head _ HI) as [[_ H0]|Hs]; [lia|].
+  assert (Hr := signed_range _ _ Hs).
+  eapply tile_read_hashes_st_spec in E as (F & T & Hauth); eauto; [|apply (ci_height _ HI)].
+  assert (Tq : textend ev_quiet s s0).
+  { eapply textend_impl; [|exact T]. rewrite (ci_name _ HI). intros e. eapply tile_ev_quiet; eauto. }
+  assert (Hfin : s' = s0 /\
+                 (r = None -> exists h l, a = TOk (h :: l) /\ str_eqb h (leaf_hash text) = true) /\
+                 (forall e, r = Some e -> e <> ESecurity /\ e <> EFuelC)).
+  { destruct a as [[|h l]|k|]; try (apply ret_inv in H as [-> ->]; split; [reflexivity|];
+                                     split; [discriminate|]; intros e [= <-]; split; discriminate).
+    destruct (str_eqb h (leaf_hash text)) eqn:Heq; apply ret_inv in H as [-> ->].
+    - split; [reflexivity|]. split; [intros _; exists h, l; auto | intros e [=]].
+    - split; [reflexivity|]. split; [discriminate | intros e [= <-]; split; discriminate]. }
+  destruct Hfin as (-> & Hnone & Herrs).
+  split; [exact F|]. split; [exact Tq|]. split; [|exact Herrs].
+  intros Hr0. destruct (Hnone Hr0) as (h & l & -> & Heq). apply str_eqb_eq in Heq. subst h.
+  exists (c_latest_msg (s_c s)). split; [exact Hs|]. split; [lia|].
+  specialize (Hauth _ eq_refl). inversion Hauth; subst. assumption.
 Qed.
 
 (* ---- the body of Lookup ------------------------------------------------------------------------------ *)
